@@ -9,11 +9,13 @@
      carrying a line >= 1.
    What remains with the correspondence and oracle runs: that the models are the Go code (and
    with it the absence of run-time panics outside the modelled branches), and the clause that a
-   template with an unterminated string, comment, block or argument list is *rejected* (decided
-   on generated instances; C08_illegal_character_is_rejected proves rejection for the
-   illegal-character case, in which the lexer stops advancing and the stream ends in ILLEGAL). *)
+   template with an unterminated block or argument list is *rejected* (decided on generated
+   instances; C08_illegal_character_is_rejected and C08_illegal_token_is_rejected prove rejection
+   whenever the token stream holds an ILLEGAL token - illegal character, unterminated string,
+   unterminated comment - given the shape of lexer output stated there, which is checked on every
+   generated input by the oracle and proved only for the stuck-lexer case). *)
 From Coq Require Import String.
-From TW Require Import Bytes GenToken Lexer LexTotal GenTie Ast Parser ParseTotal LexAll.
+From TW Require Import Bytes GenToken Lexer LexTotal GenTie Ast Parser ParseTotal LexAll ParseReject.
 Local Open Scope string_scope.
 
 Theorem C08_next_token_always_returns l : nextTok l <> None.
@@ -72,6 +74,24 @@ Print Assumptions C08_illegal_character_is_rejected.
 Example C08_illegal_character_example :
   exists ts, lex_all (bs "{{ 1 # 2 }}") = Some ts /\ ttype (last ts eofTok) = T_ILLEGAL.
 Proof. vm_compute. eexists; split; reflexivity. Qed.
+
+(* a token list in which an ILLEGAL token occurs anywhere - an illegal character, an unterminated string, an
+   unterminated comment - is rejected: under the two facts about lexer output that an ILLEGAL token is followed
+   only by ILLEGAL / EOF tokens (sok) and that EOF is the last token (eol), the parser records at least one error.
+   (Proof: no parse function steps over a token before it has seen its type, or seen that the NEXT token is one that
+   can not follow an ILLEGAL token; so a parse without errors ends on EOF with every ILLEGAL token still ahead.) *)
+Theorem C08_illegal_token_is_rejected ts :
+  tinv ts = true -> sok ts = true -> eol ts = true -> existsb illT ts = true ->
+  exists es, parse_tokens ts = ParseErrors es /\ es <> [].
+Proof. exact (parse_tokens_rejects_illegal ts). Qed.
+Print Assumptions C08_illegal_token_is_rejected.
+
+(* the hypotheses hold for the lexer's output on an unterminated string and on an unterminated comment *)
+Example C08_unterminated_examples :
+  (exists ts, lex_all (bs "a {{ ""abc }} b") = Some ts /\ tinv ts = true /\ sok ts = true /\ eol ts = true /\ existsb illT ts = true) /\
+  (exists ts, lex_all (bs "x {{-- never closed") = Some ts /\ tinv ts = true /\ sok ts = true /\ eol ts = true /\ existsb illT ts = true) /\
+  (exists ts, lex_all (bs "@if(a){{ 1 # }}@end") = Some ts /\ tinv ts = true /\ sok ts = true /\ eol ts = true /\ existsb illT ts = true).
+Proof. repeat split; vm_compute; eexists; repeat split; reflexivity. Qed.
 
 (* non-vacuity: a valid template, an unterminated block and an illegal character *)
 Example C08_examples :
